@@ -149,6 +149,10 @@ class Stage:
     shrink_budget_s: dict = dataclasses.field(
         default_factory=lambda: {"quick": 60.0, "thorough": 240.0})
     stateful_step_count: int | None = None
+    # hang is (part of) the property: callable(case) -> (clause, signature,
+    # details); a child that does not answer within `timeout` is re-run once
+    # with the doubled timeout and only then reported.
+    timeout_violation: Callable[[Any], tuple] | None = None
 
 
 def case_key(case: Any) -> str:
